@@ -226,6 +226,22 @@ def rand_case(rng, glen=None, shape=None):
             decorate_feature(rng, f, hostile, ex())
         if rng.random() < 0.3:
             fc["features"][rng.randrange(len(fc["features"]))]["is_primary_feature"] = True
+    # blocks nested in another block of the same feature / non-coding transcript (the location classes keep such blocks; starts and
+    # ends are then not both sorted).  Own stream, so that everything else of the case is what it was before this leg existed.
+    nrng = random.Random(rng.getrandbits(32) ^ 0x5EED)
+    def _nest(blocks):
+        s0, e0 = max(blocks, key=lambda b: b[1] - b[0])
+        if e0 - s0 >= 3 and nrng.random() < 0.3:
+            a = nrng.randint(s0 + 1, e0 - 2)
+            blocks.append([a, nrng.randint(a + 1, e0 - 1)])
+            blocks.sort()
+    for fc in coll["fcolls"]:
+        for f in fc["features"]:
+            _nest(f["blocks"])
+    for g in coll["genes"]:
+        for t in g["transcripts"]:
+            if not t.get("cds"):
+                _nest(t["exons"])
     coll["vcolls"] = []
     for k in range(nv):
         w = (hi0 - lo0) // max(1, nv)
